@@ -1,12 +1,8 @@
 #!/bin/sh
-# merge_wt.sh <ID>: merge branch wt-<ID> into main, auto-resolving registration files.
+# merge_wt.sh <branch-suffix> [ID]: merge branch wt-<suffix> into main, auto-resolving registration files.
 name="$1"
 git merge --no-edit wt-$name >/tmp/merge.log 2>&1
 tail -2 /tmp/merge.log
-if git show wt-$name:propsd/$name.py >/dev/null 2>&1; then :; else
-  python3 extract_props.py wt-$name $name
-  for f in props.py gen_manifest.py; do git checkout --ours $f 2>/dev/null; git add $f; done
-fi
 for f in $(git diff --name-only --diff-filter=U); do
   case "$f" in
     lean/CedarVerif.lean|MANIFEST.json) git checkout --theirs "$f" 2>/dev/null; git add "$f";;
